@@ -210,13 +210,18 @@ CLAIMED = {
              "Lark tree is reconstructed to exactly its source token sequence, whichever production and split the Reconstructor picks "
              "(print_eq_source, print_any_choice); as_text's whitespace post-processor and join preserve the tokens (postproc_tokens, join_eq_concat), "
              "and for every source the model parser accepts, the regenerated text lexes to the same tokens and parses back to the identical "
-             "derivation (roundtrip_tokens, reparse_same_tree). Table obligations additionally state that every alias is printed under its own "
+             "derivation (roundtrip_tokens, reparse_same_tree). The grammar is proved unambiguous at the derivation level: under the (strengthened, "
+             "generated-table-checked) one-token-lookahead condition ParseWF two well-formed derivations with the same yield are equal "
+             "(derivation_unique, unique_readability, unique_readability_gen), the model parser is complete and exactly characterised "
+             "(parse_complete, parse_spec: it returns d iff d is a well-formed start derivation with those token texts), and every derivation's text "
+             "parses back to it (text_of_derivation_parses). Table obligations additionally state that every alias is printed under its own "
              "keyword (gen_aliasesDistinctPerKeyword, gen_labelNaming with a pinned exception list) - exactly what the repaired module_x64 alias bug violated.",
         note="Lark's LALR parser, contextual lexer and Earley-based Reconstructor are modelled and compared, not verified: tree, printed items, exact "
              "as_text text, re-lex and re-parse on ~3.2k profiles (quick) / ~55k (thorough) covering every form, plus mutated/hand-made trees, token "
-             "soups, arbitrary postproc inputs and malformed sentences. unique_readability for arbitrary derivations is not proved (kept as "
-             "unique_readability_full; ParseWF is a checked obligation, and the reparse result holds for the model parser). The '# dns_resolver' "
-             "production is unreachable from text.",
+             "soups, arbitrary postproc inputs and malformed sentences. The earlier ParseWF was too weak (three 3-form counter-example tables are "
+             "kept and refuted: parseWF0_ambiguous, parseWF0_too_weak); the strengthened ParseWF/ParseWFT/DepthOK hold for the generated table by "
+             "decide +kernel. Still trusted: that Lark's LALR(1) parser computes the model parser's function. The '# dns_resolver' production is "
+             "unreachable from text.",
         design="§4 C10",
     ),
     "C07": dict(
@@ -257,10 +262,12 @@ CLAIMED = {
              "block's statements the stack is again the path of the enclosing blocks' and C10.print_eq_source. The cache returns the dictionary of "
              "the current tree for every modify/access history under a collision-free tree hash (dict_tracks_modification; a counter-example "
              "documents the assumption). Builder call sequences whose tree passes the verified derivation checker yield derivation trees printed as "
-             "their own sentence, with byte arguments round-tripping (builder_eq_parsed_partial, builder_bytes_roundtrip).",
+             "their own sentence whose text parses back to exactly that derivation (builder_eq_parsed, via C10.text_of_derivation_parses; the "
+             "unrestricted statement is refuted by C2Profile().set_option('stage','x'): builder_eq_parsed_full_false), with byte arguments "
+             "round-tripping (builder_bytes_roundtrip).",
         note="Grammar facts (form shapes, label/arity lookup, list_props, builder attribute tables) are re-proved by decide on tables regenerated "
-             "from the source on every run (tools/gen/grammar.py, profile_api.py). Not proved: that the builder's text parses back to the same tree "
-             "(builder_eq_parsed_full needs C10's open unique readability) - covered by correspondence against real Lark. The Reconstructor, the LALR "
+             "from the source on every run (tools/gen/grammar.py, profile_api.py). The parse-back direction holds for the model parser (C10.parse_complete); "
+             "that Lark's LALR parser equals it is compared, not proved. The Reconstructor, the LALR "
              "parser and Python's str/list/dict semantics are modelled and compared on ~10k (quick) / ~110k (thorough) cases incl. an oracle "
              "written independently of the library. Known finding C11-comment-dns-resolver is modelled faithfully.",
         design="§4 C11",
